@@ -305,4 +305,237 @@ class SkipPluginEngine(SkipEngine):
     return {'obs': obs, 'fails': fails[:3], 'nontrivial': nontrivial, 'tags': tags}
 
 
-ENGINES = [SkipEngine(), SkipPluginEngine()]
+# ---------------------------------------------------------------------------------------------------------------------
+# dynamic registration: "known" = resolvable through the file's OWN imports, independent of what was parsed before
+DYN_SKS = [None, False, True, ['list', []], ['list', ['@N']], ['tuple', ['@N', 'zz.other']], ['set', ['@N']], ['list', ['zz.other']]]
+DYN_OWN = {'plain': ('import c15aux.other', 'c15aux.other.gn'), 'from-as': ('from c15aux import other as o', 'o.gn'),
+           'as': ('import c15aux.other as o2', 'o2.gn')}
+# names the text under test does NOT import, with the import line (of ANOTHER text) that provides that very spelling
+DYN_NAMES = {'u.fn': 'import c15dyn.util as u', 'c15dyn.util.fn': 'import c15dyn.util', 'util.K': 'from c15dyn import util',
+             'util.fn': 'from c15dyn import util', 'fn': None, 'sfn': None, 'smod.sfn': None}
+DYN_PRELUDES = ['none', 'dyn-file', 'dyn-file-skipping', 'static', 'same-text']
+# 'same-text': no earlier parse at all -- the text under test itself imports c15dyn.util (binding the name `c15dyn`) and
+# configures c15dyn.util.<f> first, which registers it; the PARTIAL spelling N = util.<f> / <f> then matches that
+# registration although the text's imports do not provide a symbol `util` / `<f>`
+DYN_SAME_TEXT = ('util.K', 'util.fn', 'fn')
+
+
+class DynKnownEngine(Engine):
+  """Texts that enable dynamic registration and target / reference a name N their own imports do NOT provide, next to
+  names they do provide, parsed with every form of skip_unknown -- once in a fresh process and once after a PRELUDE made
+  the spelling N match a registration (another dynamic-registration text that imports the module under that alias and was
+  parsed before, with or without skip_unknown; or a static gin.external_configurable under that name), followed by
+  clear_config(); or the text itself registered the object under its full spelling two lines earlier ('same-text').  From the property text: 'known' means resolvable through the file's imports, independent of what was
+  parsed before; so (1) the outcome and the store are those of the statement-level reading of the property (N covered by
+  skip_unknown: statements targeting N are deleted, references to N are placeholders; not covered: an error) and (2) they
+  are the same with and without the prelude; (3) placeholders raise 'No configurable matching' on use and at finalize.
+  Implementation only (registrations made outside the parsed texts are not in DynReg's state)."""
+  name = 'skip-dynamic-known'
+  model = False
+
+  def budget(self, tier):
+    return 24 if tier == 'quick' else 600
+
+  def corpus(self):
+    out = []
+    for n, pre, sk, kinds in [
+        ('u.fn', 'dyn-file', True, ['bind']), ('u.fn', 'dyn-file', ['list', ['@N']], ['bind', 'own']),
+        ('u.fn', 'dyn-file', ['set', ['@N']], ['block']), ('c15dyn.util.fn', 'dyn-file', True, ['own', 'sbind']),
+        ('util.K', 'dyn-file-skipping', ['tuple', ['@N', 'zz.other']], ['bind', 'own']),
+        ('sfn', 'static', True, ['ref']), ('smod.sfn', 'static', ['list', ['@N']], ['own', 'lref']),
+        ('u.fn', 'static', True, ['ref', 'bind']), ('u.fn', 'dyn-file', False, ['own', 'bind']),
+        ('u.fn', 'dyn-file', ['list', ['zz.other']], ['ref']), ('sfn', 'none', True, ['bind', 'ref']),
+        ('u.fn', 'none', ['list', ['@N']], ['block', 'own']), ('util.fn', 'same-text', True, ['bind', 'own']),
+        ('fn', 'same-text', ['set', ['@N']], ['ref']), ('util.K', 'same-text', ['list', ['@N']], ['block']),
+        ('util.fn', 'same-text', ['list', ['zz.other']], ['bind'])]:
+      out.append({'name': n, 'prelude': pre, 'sk': sk, 'own': 'plain', 'kinds': kinds})
+    return out
+
+  def gen(self, rng, tier):
+    n = rng.choice(sorted(DYN_NAMES))
+    pres = [p for p in DYN_PRELUDES if (DYN_NAMES[n] or not p.startswith('dyn-file')) and (n in DYN_SAME_TEXT or p != 'same-text')]
+    return {'name': n, 'prelude': rng.choice(pres), 'sk': rng.choice(DYN_SKS), 'own': rng.choice(sorted(DYN_OWN)),
+            'kinds': [rng.choice(['bind', 'sbind', 'block', 'ref', 'lref', 'own', 'own']) for _ in range(rng.randint(1, 4))]}
+
+  # -- the text under test, as data ------------------------------------------------------------------------------------
+  @staticmethod
+  def stmts(case):
+    n, p = case['name'], DYN_OWN[case['own']][1]
+    out = []
+    for i, k in enumerate(case['kinds']):
+      if k == 'bind':
+        out.append(['bind', '', n, 'x', ['lit', str(i)]])
+      elif k == 'sbind':
+        out.append(['bind', 's1/s2', n, 'y', ['lit', str(i)]])
+      elif k == 'block':
+        out.append(['block', 's1', n, [['x', ['lit', str(i)]], ['y', ['lit', str(i + 10)]]]])
+      elif k == 'ref':
+        out.append(['bind', '', p, 'v', ['ref', 's1/' + n if i % 2 else n, i % 3 != 0]])
+      elif k == 'lref':
+        out.append(['bind', 's1', p, 'w', ['list', [['lit', str(i)], ['ref', n, False], ['list', [['ref', 's2/' + n, True]]]]]])
+      else:
+        out.append(['bind', '', p, 'w' if i % 2 else 'v', ['lit', str(100 + i)]])
+    return out
+
+  @staticmethod
+  def text(case, stmts):
+    lines = ['from __gin__ import dynamic_registration', DYN_OWN[case['own']][0]]
+    if case['prelude'] == 'same-text':
+      lines += ['import c15dyn.util', 'c15dyn.util.%s.x = 7' % case['name'].split('.')[-1]]
+    for st in stmts:
+      pre = st[1] + '/' if st[1] else ''
+      if st[0] == 'bind':
+        lines.append('%s%s.%s = %s' % (pre, st[2], st[3], val_text(st[4])))
+      else:
+        lines.append('%s%s:' % (pre, st[2]))
+        lines += ['  %s = %s' % (q, val_text(v)) for q, v in st[3]]
+    return '\n'.join(lines) + '\n'
+
+  @staticmethod
+  def expected(case, stmts, sk):
+    """statement-level reading of the property: (raises?, store) -- only the text's own imports make a name known"""
+    n = case['name']
+    cov = sk is True or (isinstance(sk, list) and n in sk[1])
+    store = {'|' + n.split('.')[-1]: {'x': 7}} if case['prelude'] == 'same-text' else {}
+
+    class Bad(Exception):
+      pass
+
+    def val(v):
+      if v[0] == 'lit':
+        return int(v[1])
+      if v[0] == 'list':
+        return [val(x) for x in v[1]]
+      if not cov:
+        raise Bad()
+      return ['Unk', v[1].rsplit('/', 1)[-1], v[2]]
+    try:
+      for st in stmts:
+        pairs = [[st[3], st[4]]] if st[0] == 'bind' else st[3]
+        vals = [[q, val(v)] for q, v in pairs]       # values are read before the target is looked at
+        if st[2] == n:
+          if not cov:
+            raise Bad()
+          continue                                   # deleted
+        for q, v in vals:
+          store.setdefault('%s|gn' % st[1], {})[q] = v
+      return False, store
+    except Bad:
+      return True, store
+
+  def impl(self, case):
+    import os
+    import shutil
+    import sys
+    import tempfile
+    n = case['name']
+    sk_spec = case['sk']
+    sk_names = [n if x == '@N' else x for x in sk_spec[1]] if isinstance(sk_spec, list) else None
+    sk = [sk_spec[0], sk_names] if sk_names is not None else sk_spec
+    stmts = self.stmts(case)
+    text = self.text(case, stmts)
+    d = tempfile.mkdtemp(prefix='ginverif_c15dyn_')
+    old_path = list(sys.path)
+    fails, tags = [], ['prelude:' + case['prelude'], 'sk:' + str(sk_spec)[:10]]
+
+    def write(path, body):
+      os.makedirs(os.path.dirname(os.path.join(d, path)), exist_ok=True)
+      with open(os.path.join(d, path), 'w') as f:
+        f.write(body)
+    write('c15dyn/__init__.py', '')
+    write('c15dyn/util.py', 'def fn(x=0, y=0):\n  return (x, y)\n\n\nclass K:\n  def __init__(self, x=0, y=0):\n    self.xy = (x, y)\n')
+    write('c15aux/__init__.py', '')
+    write('c15aux/other.py', 'def gn(v=None, w=None):\n  return (v, w)\n')
+
+    def purge():
+      for m in [m for m in sys.modules if m.split('.')[0] in ('c15dyn', 'c15aux')]:
+        del sys.modules[m]
+
+    def run(prelude):
+      """-> (error class or None, store, gin)"""
+      purge()
+      gin = C.fresh_gin()
+      cfg = gin.config
+      if prelude.startswith('dyn-file'):
+        pre = 'from __gin__ import dynamic_registration\n%s\n%s.x = 9\n' % (DYN_NAMES[n], n)
+        if prelude == 'dyn-file':
+          gin.parse_config(pre)
+        else:
+          gin.parse_config(pre, skip_unknown=True)
+      elif prelude == 'static':
+        mod, _, last = n.rpartition('.')
+        gin.external_configurable(lambda x=0, y=0: (x, y), name=last, module=mod or None)
+      gin.clear_config()
+      kw = {}
+      if sk is not None:
+        kw['skip_unknown'] = sk if isinstance(sk, bool) else {'list': list, 'tuple': tuple, 'set': set}[sk[0]](sk[1])
+      err = None
+      try:
+        gin.parse_config(text, **kw)
+      except Exception as e:  # pylint: disable=broad-except
+        err = type(e).__name__
+
+      def rv(v):
+        if isinstance(v, cfg._UnknownConfigurableReference):  # pylint: disable=protected-access
+          return ['Unk', v.selector, v.evaluate]
+        if isinstance(v, cfg.ConfigurableReference):
+          return ['Ref', v.configurable.wrapped.__name__, v.evaluate]
+        if isinstance(v, (list, tuple)):
+          return [rv(x) for x in v]
+        return v
+      store = {}
+      for (scope, sel), params in cfg._CONFIG.items():  # pylint: disable=protected-access
+        conf = cfg._REGISTRY[sel] if sel in cfg._REGISTRY else None  # pylint: disable=protected-access
+        store['%s|%s' % (scope, conf.wrapped.__name__ if conf else '?' + sel)] = {q: rv(v) for q, v in params.items()}
+      return err, store, gin
+    try:
+      sys.path.insert(0, d)
+      want_err, want_store = self.expected(case, stmts, sk)
+      results = {}
+      for prelude in (['none', case['prelude']] if case['prelude'] in ('dyn-file', 'dyn-file-skipping', 'static') else [case['prelude']]):
+        err, store, gin = run(prelude)
+        results[prelude] = (err, store)
+        what = 'skip_unknown=%r, prelude %s, text %r' % (sk, prelude, text)
+        if bool(err) != want_err:
+          fails.append(('dynamic-skip-outcome', '%s: outcome %r; only the text\'s own imports make a name known, so the property '
+                        'requires %s' % (what, err, 'an error' if want_err else 'no error (the statements targeting %s are deleted)' % n)))
+        elif store != want_store:
+          fails.append(('dynamic-skip-configuration', '%s: store %r, the property requires %r' % (what, store, want_store)))
+        elif not err:
+          holders = sorted(k for k, pd in store.items() if any(has_unk_plain(v) for v in pd.values()))
+          if holders:
+            import c15aux.other  # pylint: disable=g-import-not-at-top
+            for k in holders:
+              try:
+                with gin.config_scope(k.split('|')[0] or None):
+                  gin.get_configurable(c15aux.other.gn)()
+                fails.append(('placeholder-silently-used', '%s: %s holds a placeholder but the call succeeded' % (what, k)))
+              except ValueError as e:
+                if 'No configurable matching' not in str(e):
+                  fails.append(('placeholder-wrong-error', '%s: %s' % (what, e)))
+              except Exception as e:  # pylint: disable=broad-except
+                fails.append(('placeholder-wrong-error', '%s: %s: %s' % (what, type(e).__name__, e)))
+            try:
+              gin.finalize()
+              fails.append(('placeholder-passed-finalize', '%s: %r' % (what, holders)))
+            except ValueError as e:
+              if 'No configurable matching' not in str(e):
+                fails.append(('placeholder-wrong-error', '%s: finalize: %s' % (what, e)))
+      if len(results) == 2 and results['none'] != results[case['prelude']] and not fails:
+        fails.append(('known-depends-on-history', 'skip_unknown=%r, text %r: fresh process %r, after prelude %s %r' %
+                      (sk, text, results['none'], case['prelude'], results[case['prelude']])))
+    finally:
+      sys.path[:] = old_path
+      purge()
+      shutil.rmtree(d, ignore_errors=True)
+    touches = any(k != 'own' for k in case['kinds'])
+    return {'obs': T('Done'), 'fails': fails[:3], 'nontrivial': touches and case['prelude'] != 'none' and bool(sk), 'tags': tags}
+
+
+def has_unk_plain(v):
+  if isinstance(v, list):
+    return (len(v) == 3 and v[0] == 'Unk') or any(has_unk_plain(x) for x in v)
+  return False
+
+
+ENGINES = [SkipEngine(), SkipPluginEngine(), DynKnownEngine()]
